@@ -212,12 +212,41 @@ impl<K: CacheKey + 'static> MemoryCache<K> {
 
         let evict_count = current_entries - target_entries;
 
+        self.evict_by_policy(evict_count);
+    }
+
+    /// Evict `count` entries using the configured policy
+    fn evict_by_policy(&self, count: usize) {
         match &self.config.eviction_policy {
-            crate::traits::EvictionPolicy::Lru => self.evict_lru(evict_count),
-            crate::traits::EvictionPolicy::Lfu => self.evict_lfu(evict_count),
-            crate::traits::EvictionPolicy::Fifo => self.evict_fifo(evict_count),
-            crate::traits::EvictionPolicy::Random => self.evict_random(evict_count),
+            crate::traits::EvictionPolicy::Lru => self.evict_lru(count),
+            crate::traits::EvictionPolicy::Lfu => self.evict_lfu(count),
+            crate::traits::EvictionPolicy::Fifo => self.evict_fifo(count),
+            crate::traits::EvictionPolicy::Random => self.evict_random(count),
             crate::traits::EvictionPolicy::Ttl => self.evict_expired(),
+        }
+    }
+
+    /// Evict by policy until `incoming` more bytes fit under `max_memory_bytes`
+    fn make_room_for(&self, incoming: usize) {
+        let Some(max) = self.config.max_memory_bytes else {
+            return;
+        };
+
+        loop {
+            let used = self.memory_usage.load(Ordering::Relaxed) as usize;
+            let entries = self.entry_count.load(Ordering::Relaxed);
+            if entries == 0 || used.saturating_add(incoming) <= max {
+                return;
+            }
+
+            // Estimate how many entries must go from the average entry size
+            let over = used.saturating_add(incoming) - max;
+            let avg = (used / entries).max(1);
+            self.evict_by_policy(over.div_ceil(avg).clamp(1, entries));
+
+            if self.entry_count.load(Ordering::Relaxed) >= entries {
+                return; // Nothing evictable (e.g. TTL policy without expired entries)
+            }
         }
     }
 
@@ -410,10 +439,22 @@ impl<K: CacheKey + 'static> AsyncCache<K> for MemoryCache<K> {
         let start_time = Instant::now();
         let size_bytes = value.len();
 
+        // A value that can never fit the byte budget is not admitted. Drop any older
+        // value for the key so a later get() cannot return replaced data.
+        if self
+            .config
+            .max_memory_bytes
+            .is_some_and(|max| size_bytes > max)
+        {
+            self.remove(&key).await?;
+            return Ok(());
+        }
+
         // Check capacity and evict if necessary
         if self.needs_eviction() {
             self.perform_eviction();
         }
+        self.make_room_for(size_bytes);
 
         let entry = Arc::new(MemoryCacheEntryInner::new(value, size_bytes, Some(ttl)));
 
